@@ -543,6 +543,58 @@ def exporter_model(prog: Program) -> dict:
                 continue
             model = {"loop": loop, "rows": rows, "cmp": c, "side": side,
                      "raw": raw, "set": setp[0], "k": k, "branch": br}
+        if model is not None:
+            # label assignments outside the table search (fast paths):
+            # `if ... a_stereo == Cls(<atoms>, <parity>): Set(label)`
+            from .core import ancestors
+            extra, unparsed = [], []
+            for call in ast.walk(br):
+                if not (isinstance(call, ast.Call) and norm(
+                        call.func).endswith("SetUnsignedProp")
+                        and len(call.args) == 2
+                        and "_chiralPermutation" in norm(call.args[0])):
+                    continue
+                if any(x is call for x in ast.walk(model["loop"])):
+                    continue
+                cand = None
+                for a in ancestors(call):
+                    if a is br:
+                        break
+                    if isinstance(a, ast.If):
+                        for cmpn in ast.walk(a.test):
+                            if isinstance(cmpn, ast.Compare) and len(
+                                    cmpn.ops) == 1 and isinstance(
+                                    cmpn.ops[0], ast.Eq) and \
+                                    "a_stereo" in norm(cmpn):
+                                sd = cmpn.left if "a_stereo" not in norm(
+                                    cmpn.left) else cmpn.comparators[0]
+                                if isinstance(sd, ast.Call) and \
+                                        call_name(sd) == cls:
+                                    cand = sd
+                        if cand is not None:
+                            break
+                if cand is None:
+                    unparsed.append(call)
+                    continue
+                kw = {x.arg: x.value for x in cand.keywords}
+                a_e = cand.args[0] if cand.args else kw.get("atoms")
+                p_e = cand.args[1] if len(cand.args) > 1 else kw.get("parity")
+                nbrs = tuple(f"n{i}" for i in range(k))
+                f1 = Fold({"atom": "c", "neighbors": nbrs,
+                           "rd_nbr_order": nbrs, "rd_nbrs": nbrs})
+                av = f1.ev(a_e) if a_e is not None else UNK
+                if p_e is not None and norm(p_e) == "a_stereo.parity":
+                    pv = "SAME"
+                else:
+                    pv = f1.ev(p_e) if p_e is not None else UNK
+                lv = f1.ev(call.args[1])
+                if UNK in (av, pv, lv):
+                    unparsed.append(call)
+                else:
+                    extra.append((lv, av, pv, call.lineno <
+                                  model["loop"].lineno, call))
+            model["extra"] = extra
+            model["extra_unparsed"] = unparsed
         out[cls] = model
     def dead(n):
         from .core import ancestors
